@@ -32,7 +32,9 @@ def heldAtExit (evs : List Ev) : List String :=
 
 /-- is the mutex expression `m` the one that guards table `field`?  (`a.SocksCliMtx` guards `SocksCli`, …) -/
 def guards (m field : String) : Bool :=
-  let suf := field.toList ++ "Mtx".toList
+  -- one mutex, `JobMtx`, guards both the job queue and the request-id record of an agent
+  let stem := if field = "JobQueue" ∨ field = "Tasks" then "Job" else field
+  let suf := stem.toList ++ "Mtx".toList
   (m.toList.reverse.take suf.length).reverse == suf
 
 structure AccessScan where
